@@ -81,7 +81,7 @@ CLAIMED = {
     "C26": ("exploration",
             "One real chain hosting 2-3 06-solomachine clients (single keys and n-of-n multisigs, a machine shared by two clients under different diversifiers) whose machines, keys and relayer the simulator plays: connection/channel handshakes and mock-application packet flow are proven by solo machine signatures; the faulty relayer replays earlier signatures after the sequence moved, signs for another sequence / timestamp / diversifier / path / data / key, corrupts signature bytes and submits double-signing evidence. Sequential reference model of each client (sequence, timestamp, key, diversifier, frozen): every committed verification consumed exactly one sequence and was signed by the registered key over exactly the bytes the chain had to check; no signature is accepted twice, no two signatures for one sequence; timestamps never decrease; refused messages change nothing; frozen clients accept nothing; valid double-signing evidence freezes (the repository's refusal of evidence built from signatures it accepts as proofs is the recorded finding).",
             "deterministic simulation: simulator-played solo machines with replay / wrong-field / corrupted signature faults, sequential client reference model", "8 C26"),
-    "C28": ("fault_enumeration",
+    "C28": ("exploration",
             "One real chain hosting 2-3 attestations light clients with their own attestor sets (3-7 secp256k1 keys owned by the simulator), quorums and IBC v2 counterparties; the attested chain is a simulated height/clock. The relayer assembles client updates, membership / non-membership proofs and v2 receive / ack / timeout messages whose proofs are attestations — honest, or broken in one or two dimensions (signers below quorum, duplicated, unknown, wrong-domain tag, malleable/corrupted bytes, other payload, other height, other path hash or commitment, zero-commitment for absence). Independent reference verifier (signature recovery, distinct configured signers >= quorum, payload decoding, height/timestamp binding, path hash and value match): accepted => reference accepts; a frozen client accepts nothing; a conflicting timestamp for a stored height freezes the client. Coverage of the (message kind x broken dimension) grid is reported.",
             "deterministic simulation: simulated attestor sets signing honest and broken attestations for every proof consumer, independent reference verifier", "8 C28"),
     "C39": ("exploration",
